@@ -1,4 +1,5 @@
 use std::collections::HashMap;
+use std::convert::TryFrom;
 
 use itertools::Itertools;
 
@@ -259,21 +260,33 @@ impl ColumnParsing {
                             let value = ColumnParsing::extract_using_regex(&ValueType::Int, parsing_input, pattern, Value::Null);
 
                             if let Value::Int(value_i64) = value {
-                                match index {
-                                    0 => { year = value_i64 as i32 },
-                                    1 => { month = value_i64 as u32 },
-                                    2 => { day = value_i64 as u32 },
-                                    3 => { hour = value_i64 as u32 },
-                                    4 => { minute = value_i64 as u32 },
-                                    5 => { second = value_i64 as u32 }
-                                    6 => {
-                                        if column.options.microseconds {
-                                            microsecond = value_i64 as u32;
-                                        } else {
-                                            microsecond = value_i64 as u32 * 1000;
+                                // A part that does not fit its range gives no timestamp (not a wrapped around one)
+                                if index == 0 {
+                                    year = match i32::try_from(value_i64) {
+                                        Ok(year) => year,
+                                        Err(_) => { return column.default_value(); }
+                                    };
+                                } else {
+                                    let value_u32 = match u32::try_from(value_i64) {
+                                        Ok(value_u32) => value_u32,
+                                        Err(_) => { return column.default_value(); }
+                                    };
+
+                                    match index {
+                                        1 => { month = value_u32 },
+                                        2 => { day = value_u32 },
+                                        3 => { hour = value_u32 },
+                                        4 => { minute = value_u32 },
+                                        5 => { second = value_u32 }
+                                        6 => {
+                                            let factor = if column.options.microseconds { 1 } else { 1000 };
+                                            microsecond = match value_u32.checked_mul(factor) {
+                                                Some(microsecond) => microsecond,
+                                                None => { return column.default_value(); }
+                                            };
                                         }
+                                        _ => {}
                                     }
-                                    _ => {}
                                 }
                             } else {
                                 if index == 1 {
